@@ -44,6 +44,10 @@ type c15Case struct {
 	// PrevOther: before the judged connection, ANOTHER Auth value of the same user completed a genuine
 	// exchange with a different password against the same salt and iteration count.
 	PrevOther bool `json:"prev_other,omitempty"`
+	// BadPass: the caller's password contains a character the SCRAM password profile refuses (BEL); the server
+	// plays a complete, well-ordered exchange for the EMPTY password. The Auth value is used twice (the first
+	// attempt is expected to fail locally). The client cannot represent its password: no attempt may succeed.
+	BadPass bool `json:"bad_pass,omitempty"`
 }
 
 // c15Shared is what an attacker can have recorded earlier: the server-final of a previous exchange.
@@ -67,8 +71,26 @@ const (
 	c15OtherPass = "the-previous-password"
 )
 
+const c15BadPass = "pen\u0007cil"
+
 func c15Exec(c *c15Case) (*c15Result, *core.Violation) {
 	shared := &c15Shared{}
+	if c.BadPass && !strings.HasSuffix(c.Mech, "-PLUS") {
+		var a smtp.Auth
+		if strings.Contains(c.Mech, "SHA-1") {
+			a = smtp.ScramSHA1Auth(c15User, c15BadPass)
+		} else {
+			a = smtp.ScramSHA256Auth(c15User, c15BadPass)
+		}
+		first, hv := c15Conn(c, "HAEJ", a, shared)
+		if hv != nil {
+			return nil, hv
+		}
+		if first.violation != nil || first.authErr == nil {
+			return first, nil
+		}
+		return c15Conn(c, c.Seq, a, &c15Shared{})
+	}
 	if c.Reuse && !strings.HasSuffix(c.Mech, "-PLUS") {
 		var a smtp.Auth
 		if strings.Contains(c.Mech, "SHA-1") {
@@ -117,6 +139,9 @@ func c15Conn(c *c15Case, seq string, given smtp.Auth, shared *c15Shared) (*c15Re
 	pass := c15Pass
 	if c.password != "" {
 		pass = c.password
+	}
+	if c.BadPass {
+		pass = "" // what a client that lost its password on the way would derive its keys from
 	}
 	plus := strings.HasSuffix(c.Mech, "-PLUS")
 	p := refsasl.ScramParams{Hash: "SHA-256", Plus: plus, Salt: []byte("verif-salt-0123"), Iter: 4, NonceSuffix: "SrvNonce9z"}
@@ -433,6 +458,21 @@ func c15Run(c c15Case) []*core.Violation {
 		}
 		vs = append(vs, core.V(key, "Auth returned nil for the server sequence %s (%s) although no valid server-final for the running exchange was delivered before the %c; trace %v", c.Seq, c.Mech, last, out.trace))
 	}
+	if c.BadPass {
+		// the tracker judges the exchange against the empty password; here the point is another one
+		vs = nil
+		if out.authErr == nil {
+			vs = append(vs, core.V("success-with-unrepresentable-password", "the caller's password contains a character the SCRAM profile refuses, yet Auth returned nil on a reused Auth value against a server that holds the EMPTY password (%s, sequence %s); trace %v", c.Mech, c.Seq, out.trace))
+		}
+		for _, tr := range out.trace {
+			if strings.HasPrefix(tr, "E -> empty") {
+				vs = append(vs, core.V("acked-invalid-server-final", "the client acknowledged a server signature made with the EMPTY password although the caller's password is another one that it cannot even represent (%s); trace %v", c.Mech, out.trace))
+				break
+			}
+		}
+		rec.AddExtra("unrepresentable_password_sequences", 1)
+		return vs
+	}
 	if out.authErr != nil && out.legit {
 		vs = append(vs, core.V("legit-exchange-failed", "a complete, valid exchange (%s) ended in the error %v; trace %v", c.Seq, out.authErr, out.trace))
 	}
@@ -445,7 +485,7 @@ func c15Run(c c15Case) []*core.Violation {
 
 func c15Describe() {
 	rec := core.Rec("C15")
-	rec.Rule = "bounded-exhaustive: every server message sequence of length <= 5 (PLUS variants <= 4) in quick and <= 7 (PLUS <= 6) in thorough over the alphabet {A valid server-first, B server-first with a foreign nonce (longer than the combined nonce), C with truncated nonce, D malformed server-first, E valid server-final, F server-final made with another key, G server-final over empty state, H empty challenge, I junk, J 235, K 535, L replayed valid server-final of an earlier exchange of the same Auth object, M server-final with an empty verifier, Q server-final with the server-error attribute e=... instead of a signature, N server-first with the right nonce and salt but iteration count 0 (a server that does not know the password), O server-final made from an all-zero SaltedPassword over the running exchange}, plus the sequences HP, HPK, HPM, HPO with P = a well-formed server-first whose iteration count is 10000001, for SCRAM-SHA-1, SCRAM-SHA-256 and both PLUS variants (over a real TLS 1.2 handshake on an in-memory connection), driven through smtp.Client.Auth, also with an Auth object that completed a genuine exchange on an earlier connection (reuse, sequences <= 4 / <= 6), and after another Auth value of the same user completed an exchange with a different password against the same salt and iteration count; depth-first with pruning once the client has aborted or the exchange ended. " +
+	rec.Rule = "bounded-exhaustive: every server message sequence of length <= 5 (PLUS variants <= 4) in quick and <= 7 (PLUS <= 6) in thorough over the alphabet {A valid server-first, B server-first with a foreign nonce (longer than the combined nonce), C with truncated nonce, D malformed server-first, E valid server-final, F server-final made with another key, G server-final over empty state, H empty challenge, I junk, J 235, K 535, L replayed valid server-final of an earlier exchange of the same Auth object, M server-final with an empty verifier, Q server-final with the server-error attribute e=... instead of a signature, N server-first with the right nonce and salt but iteration count 0 (a server that does not know the password), O server-final made from an all-zero SaltedPassword over the running exchange}, plus the sequences HP, HPK, HPM, HPO with P = a well-formed server-first whose iteration count is 10000001, for SCRAM-SHA-1, SCRAM-SHA-256 and both PLUS variants (over a real TLS 1.2 handshake on an in-memory connection), driven through smtp.Client.Auth, also with an Auth object that completed a genuine exchange on an earlier connection (reuse, sequences <= 4 / <= 6), and after another Auth value of the same user completed an exchange with a different password against the same salt and iteration count; depth-first with pruning once the client has aborted or the exchange ended. Plus: a caller password the SCRAM profile refuses (BEL inside), an Auth value used twice, and a server that plays complete, well-ordered exchanges for the EMPTY password (HAEJ, AEJ, HAEK, HAJ): no attempt may succeed. " +
 		"Oracle (reference tracker of the exchange): Auth returns nil only if, since the last client-first, the valid server-first was answered by a verifying client-final and the valid server-final was acknowledged before the 235; the client sends client-final only after a valid server-first and acknowledges a v= message only when it is the valid one; a complete valid exchange succeeds. " +
 		"Non-trivial: the sequence contains a message that is valid for some exchange (A, E, F, G, L or M). Distinct by (mechanism, sequence)."
 	rec.Assumptions = []string{"PBKDF2 iteration count 4 to keep the enumeration cheap", "known finding scram-bare-235: a 235 is accepted whatever preceded it; counted and excluded by signature"}
@@ -524,6 +564,18 @@ func TestC15Enum(t *testing.T) {
 	// a well-formed server-first with a huge iteration count (P): the exchange goes on or fails, it is
 	// never reported as successful at that point. Few sequences only: each costs the client ten million
 	// PBKDF2 rounds.
+	bad := 0
+	for _, mech := range []string{"SCRAM-SHA-1", "SCRAM-SHA-256"} {
+		for _, seq := range []string{"HAEJ", "AEJ", "HAEK", "HAJ"} {
+			bad++
+			if bad%core.Shards != core.Shard {
+				continue
+			}
+			if v := p.RunOne(c15Case{Mech: mech, Seq: seq, BadPass: true}); v != nil {
+				t.Fatalf("VIOLATION-DETAIL property=C15 %s", v)
+			}
+		}
+	}
 	huge := 0
 	for _, mech := range []string{"SCRAM-SHA-1", "SCRAM-SHA-256"} {
 		for _, seq := range []string{"HP", "HPK", "HPM", "HPO"} {
